@@ -14,9 +14,9 @@ def specs_secondq(tier):
     s += [(SQ, "unit_filter_terms", {"nmodes": a, "nconds": b, "timeout_ms": t}) for a, b in (((1, 1), (2, 2), (3, 1)) if tier == "thorough" else ((1, 1), (2, 2)))]
     s += [(SQ, "unit_apply_mask", {"timeout_ms": t})]
     s += [(SQ, "unit_operator_diag_offdiag", {"variant": v, "timeout_ms": t}) for v in ("dict", "list")]
-    # entry / exit wrappers of block_diagonalize for operator-valued input (precondition: the terms of a matrix-valued Hamiltonian are matrices)
+    # entry / exit wrappers of block_diagonalize for operator-valued input (the terms of a matrix-valued Hamiltonian are sympy matrices or numeric arrays, dense or sparse)
     s += [(SQ, "unit_h_eval", {"kind": k, "scalar_input": si, "timeout_ms": t}) for k, si in (("zero", True), ("zero", False), ("scalar", True), ("matrix", True), ("matrix", False),
-                                                                                          ("immutable", True), ("immutable", False))]
+                                                                                          ("immutable", True), ("immutable", False), ("ndarray", False), ("sparse", False))]
     s += [(SQ, "unit_postprocessing_eval", {"kind": k, "scalar_input": si, "timeout_ms": t}) for k in ("zero", "one", "matrix1x1", "matrix") for si in (True, False)]
     # callee of solve_scalar: _cancel_binary_operator_numbers establishes the canonical-form invariant the solver relies on (layouts with ladder operators between
     # the bosons and the binary modes: the slice of the powers that is paired with the binary operators matters)
